@@ -542,8 +542,18 @@ class Server(object):
             if op == 'raw':
                 self._send_raw(app, bytes.fromhex(item[1]), 'raw')
                 continue
-            if op == 'compress' and app.ids['cb.play.set_compression'] \
-                    is not None:
+            if op == 'compress':
+                # play-state Set Compression (protocol 47 only): sent in the
+                # current framing, both directions switch with it - like a
+                # vanilla server, which installs its codec right after the
+                # packet (so the script must not have the client write
+                # anything it could not have written after reading it)
+                if app.ids['cb.play.set_compression'] is None:
+                    continue
+                self._send(app, app.ids['cb.play.set_compression'],
+                           varint(item[1]), 'set-compression', item[1])
+                app.out_threshold = item[1]
+                app.deframer.threshold = item[1]
                 continue
             pid, body = self.encode_play(app, item)
             self._send(app, pid, body, op, item)
